@@ -22,7 +22,7 @@ Ops == {[op |-> "DelegRoundTrip", type |-> t, ds |-> ds] : t \in {"CAPACITY", "L
        \cup {[op |-> n, type |-> t] : n \in {"DetailsOnReference", "MixedType", "DecodeMixedText"}, t \in {"CAPACITY", "LABEL"}}
        \* the duplicate arrives in a second call, in the same call, or after other delegations in the same call
        \cup {[op |-> "AddDuplicateId", type |-> t, how |-> h] : t \in {"CAPACITY", "LABEL"}, h \in {"two_calls", "one_call", "one_call_third"}}
-       \cup {[op |-> "PoolsRoundTrip", type |-> t, fam |-> f] : t \in {"CAPACITY", "LABEL"}, f \in Families}
+       \cup {[op |-> "PoolsRoundTrip", type |-> t, fam |-> f, single |-> sg] : t \in {"CAPACITY", "LABEL"}, f \in Families, sg \in {"none", "first", "last"}}
        \cup {[op |-> "PoolsViaGraph", type |-> t, fam |-> f, own |-> SetToSeq(w)] : t \in {"CAPACITY", "LABEL"}, f \in Families,
                                                                                 w \in {{}, {"n1"}, {"n2"}, {"x9"}, {"n1", "x9"}}}
 
